@@ -287,6 +287,8 @@ def handleStats (focus : String) (c : Case) : String := Id.run do
       c.body.find? fun l => l.getD 0 "" == "stc" && l.getD 1 "" == key
     if let some l := stcLine "cov" then
       if !bitsEq (fmatAt l 2).a covI.a then acc := { acc with mon := acc.mon.push "clone:covariance-differs" }
+    if let some l := stcLine "corr" then
+      if !bitsEq (fmatAt l 2).a corrI.a then acc := { acc with mon := acc.mon.push "correlation_matrix()≠calculate_correlation_matrix()" }
     for (key, orig) in [("linvar", linI), ("nonlinvar", nonlinI)] do
       if let some l := stcLine key then
         acc := { acc with compared := acc.compared + 1 }
